@@ -189,8 +189,8 @@ def run_inst(spec, run):
         if set(res["r"]) != set(res["ref"]):
             viol.append(z3.BoolVal(True))
         run.obligation(ctx, "bounds-contain-completion", z3.Or(viol), conc)
-        run.validate(ctx, conc, lambda m: {"props": {k: [S.model_int(m, b.lower), S.model_int(m, b.upper)] for k, b in res["r"].items()}})
+        run.validate(ctx, conc, lambda m: {"props": {k: [S.model_int(m, b.lower), S.model_int(m, b.upper)] for k, b in res["r"].items()}}, extremes=plh.extremes(env))
         run.sample({"model": pl.show(model_spec), "mode": spec["mode"], "path_condition": [str(z3.simplify(c)) for c in ctx.pc][:6]})
 
-    st = S.explore(fn, on_path, max_paths=8000, wall=900)
+    st = S.explore(fn, on_path, max_paths=30000, wall=2400)
     return run.result(st)
